@@ -36,13 +36,13 @@ ASSUMPTIONS = ["a stepping request is acknowledged only after its save; a write 
                "crash modelled in-process; the thorough tier replays a sample with each incarnation in a child process on a real directory"]
 FAULT_KINDS = ["crash_between_requests", "second_crash", "crash_before_open", "torn:zero", "torn:one", "torn:header", "torn:inner", "torn:last",
                "lost_write", "stray_file"]
-PROBES = ["whole_server_save_state", "second_session_in_instance", "restored_with_settings_history", "restored_instance_stepped", "torn_inside_inner_string", "damaged_file_contained",
+PROBES = ["stream_abandoned_by_client", "integer_run_specs", "whole_server_save_state", "second_session_in_instance", "restored_with_settings_history", "restored_instance_stepped", "torn_inside_inner_string", "damaged_file_contained",
           "startup_with_stray_file", "several_instances_restored", "never_externalised_instance_exempt", "long_history_restored"]
 THOROUGH_PROBES = ["child_process_cross_check"]
 EXHAUSTIVE = {"quick": False, "thorough": False}
 
 STRAYS = ["README", "x.json.tmp", ".DS_Store", "notes.json"]
-SAVING = ("step", "steps", "stream")
+SAVING = ("step", "steps", "stream", "stream_cut")
 
 
 def gen_history(seed, long=False):
@@ -94,6 +94,22 @@ def gen_history(seed, long=False):
         if rng.random() < 0.15 and not long:
             s.append({"inst": j, "op": "stream", "settings": {}})
         streams.append(s)
+    # a client that hangs up in the middle of a stream: the steps it has been sent were taken
+    for s in streams:
+        if rng.random() < 0.25 and not long:
+            pos = rng.randint(2, len(s))
+            if s[pos - 1]["op"] == "begin":
+                pos += 1        # a begin keeps its immediate first stepping request
+            s.insert(min(pos, len(s)), {"inst": s[0]["inst"], "op": "stream_cut", "chunks": rng.choice([1, 2, 3, 4, 6]),
+                                        "settings": {} if rng.random() < 0.7 else None})
+    int_specs = rng.choice(["none", "none", "scenario", "begin"])
+    if int_specs == "begin":
+        # run specs written the way people write them: as integers
+        for s in streams:
+            for o in s:
+                if o["op"] == "begin":
+                    o["settings"] = copy.deepcopy(o["settings"]) or {}
+                    o["settings"].setdefault("smA", {}).setdefault(o["scenarios"][0], {})["runspecs"] = {"starttime": 1, "stoptime": 30, "dt": 1}
     # merge the streams preserving each one's order
     ops = []
     idx = [0] * k
@@ -114,10 +130,11 @@ def gen_history(seed, long=False):
         if ok_pos:
             # often right after the sessions were begun, before anybody stepped
             ops.insert(ok_pos[0] if rng.random() < 0.5 else rng.choice(ok_pos), {"inst": -1, "op": "save_state"})
+    ints = {"runspecs": {"starttime": 1, "stoptime": 30, "dt": 1}} if (int_specs == "scenario" and not long) else {}
     return {"property": PROPERTY,
             "config": {"adapter": adapter, "list_order": rng.choice(["insertion", "sorted", "reversed"]),
                        "model": {"template": template, "start": 1.0, "stop": 30.0 if not long else 2000.0, "dt": 1.0,
-                                 "managers": {"smA": {"base": {}, "alt": {"constants": {"constant": 2.0} if template == "T1" else {"drain": 1.0}}}}}},
+                                 "managers": {"smA": {"base": dict(ints), "alt": dict(ints, constants={"constant": 2.0} if template == "T1" else {"drain": 1.0})}}}},
             "ops": ops}
 
 
@@ -205,6 +222,11 @@ def _do(w, ids, o, res=None):
     if op == "stream":
         r, _, _ = w.stream("/%s/stream-steps" % iid, {"settings": o["settings"]})
         return r
+    if op == "stream_cut":
+        r, cut, _ = w.stream("/%s/stream-steps" % iid, None if o["settings"] is None else {"settings": o["settings"]}, chunks=o["chunks"])
+        if cut and res is not None:
+            res.probe("stream_abandoned_by_client")
+        return r
     if op == "results":
         return w.get("/%s/session-results" % iid)
     if op == "flat":
@@ -233,12 +255,12 @@ def _run(case, crash, log, res):
                 path = "/state/%s.json" % ids.get(j)
                 info["file_before"][j] = w.fs.files.get(path)
                 w.fs.armed = dict(crash["fault"])
-                r = _do(w, ids, o)
+                r = _do(w, ids, o, res)
                 w.fs.armed = None
                 log.add("req", n, o["op"], "crashed-inside")
                 # the client never saw this response
             else:
-                r = _do(w, ids, o)
+                r = _do(w, ids, o, res)
                 out[n] = (r.status, r.body if r.body is not None else r.text)
                 log.add("req", n, o["op"], r.status)
             if crash and n == k:
@@ -306,7 +328,7 @@ def _run(case, crash, log, res):
             for n, o in enumerate(ops, start=1):
                 if n <= k:
                     continue
-                r = _do(w, ids, o)
+                r = _do(w, ids, o, res)
                 out[n] = (r.status, r.body if r.body is not None else r.text)
                 log.add("req", n, o["op"], r.status)
                 if k2 is not None and n == k2:
@@ -532,6 +554,8 @@ def execute(case):
                 break
     if any(o["op"] == "save_state" for o in ops[:k]):
         res.probe("whole_server_save_state")
+    if restored and ("runspecs" in str(case["config"]["model"]["managers"]) or any("runspecs" in str(o.get("settings")) for o in ops[:k])):
+        res.probe("integer_run_specs")
     if restored >= 2:
         res.probe("several_instances_restored")
     if any(sum(1 for o in ops if o["inst"] == j and o["op"] == "begin") > 1 for j in insts):
